@@ -9,7 +9,8 @@ def c30(tier, seed):
     q = c.quick
     c.run_cases(exe, ['--mode', 'stress'], 24 if q else 400, per_case_timeout=120, workers=8, label='stress')
     c.run_cases(pexe, ['--mode', 'random', '--schedules', '150' if q else '1500'], 32 if q else 400, per_case_timeout=300, workers=16, label='random')
-    c.run_cases(pexe, ['--mode', 'dfs', '--budget', '700' if q else '150000', '--bound', '2' if q else '3'], 8 if q else 16, per_case_timeout=3000, workers=16, label='dfs')
+    # one dfs case is a whole enumeration (up to 150000 re-executions in the thorough tier): its watchdog is sized for that
+    c.run_cases(pexe, ['--mode', 'dfs', '--budget', '700' if q else '150000', '--bound', '2' if q else '3', '--case-seconds', '300' if q else '2800'], 8 if q else 16, per_case_timeout=3000, workers=16, label='dfs')
     if not q:
         texe = c.build('tsan', ['queue_mon'])['queue_mon']
         c.run_cases(texe, ['--mode', 'stress'], 60, per_case_timeout=300, workers=8, label='tsan')
